@@ -231,7 +231,15 @@ class KindAnalysis:
                     elif c is not None:
                         name = c.get("name") or ""
                         sp = strip_generics((c.get("resolved") or c)["path"])
-                        if name == "from_elem" and len(t["args"]) >= 2:
+                        if name in ("call", "call_mut", "call_once") and len(t["args"]) == 2 and \
+                                "ops::Fn" in (c.get("path") or ""):
+                            # a local closure applied to side-kinded arguments: what it builds from
+                            # them (id maps, tables) belongs to that side
+                            pl1 = op_place(t["args"][1])
+                            if pl1 is not None and not pl1["p"]:
+                                for i in range(4):
+                                    ks |= {x for x in kinds.get((pl1["l"], "#%d" % i), ()) if x in SIDE}
+                        elif name == "from_elem" and len(t["args"]) >= 2:
                             # vec![v; n]: a table with one slot per id of n's side
                             if not {x for x in op_kind(t["args"][0]) if x in SIDE}:
                                 ks = {x for x in op_kind(t["args"][1]) if x in SIDE}
